@@ -36,6 +36,32 @@ type CloseCase struct {
 	Flood bool        `json:"flood,omitempty"` // packets keep being written (stream and publishers) while closing
 	Queue int         `json:"queue"`
 	Acts  []CloseAct  `json:"acts"`
+	// LateAccept: one more connection reaches the listener before the close operations, but Accept hands it to the server
+	// only while the server is shutting down (the accept race, made deterministic through the public Listen hook)
+	LateAccept bool `json:"late_accept,omitempty"`
+}
+
+// lateListener holds back one accepted connection until the listener is closed.
+type lateListener struct {
+	net.Listener
+	hold   atomic.Bool
+	got    chan struct{}
+	closed chan struct{}
+	once   sync.Once
+}
+
+func (l *lateListener) Accept() (net.Conn, error) {
+	c, err := l.Listener.Accept()
+	if err == nil && l.hold.CompareAndSwap(true, false) {
+		l.got <- struct{}{}
+		<-l.closed // handed over only now: the server is shutting down
+	}
+	return c, err
+}
+
+func (l *lateListener) Close() error {
+	l.once.Do(func() { close(l.closed) })
+	return l.Listener.Close()
 }
 
 type closeStats struct {
@@ -44,6 +70,7 @@ type closeStats struct {
 	Inconcl     int
 	PhaseFailed int
 	Sessions    int
+	LateAccepted bool
 }
 
 const (
@@ -79,11 +106,29 @@ func runCloses(c CloseCase) (*closeStats, error) {
 		}
 	}
 	desc := SimpleDesc([]int{1, 1})
-	w, err := StartWorld(WorldCfg{UDP: needUDP, TLS: c.TLS, Desc: desc, ReadTimeout: c13Timeout, WriteTimeout: c13Timeout, IdleTimeout: 30 * time.Second,
-		WriteQueueSize: c.Queue})
+	var late *lateListener
+	cfg := WorldCfg{UDP: needUDP, TLS: c.TLS, Desc: desc, ReadTimeout: c13Timeout, WriteTimeout: c13Timeout, IdleTimeout: 30 * time.Second,
+		WriteQueueSize: c.Queue}
+	if c.LateAccept {
+		cfg.Listen = func(network, address string) (net.Listener, error) {
+			l, err := net.Listen(network, address)
+			if err != nil {
+				return nil, err
+			}
+			late = &lateListener{Listener: l, got: make(chan struct{}, 1), closed: make(chan struct{})}
+			return late, nil
+		}
+	}
+	w, err := StartWorld(cfg)
 	if err != nil {
 		return st, nil
 	}
+	var lateConn net.Conn
+	defer func() {
+		if lateConn != nil {
+			lateConn.Close()
+		}
+	}()
 	w.H.KeepMainStream = true
 	stall := newStallDetector()
 	defer stall.close()
@@ -244,6 +289,20 @@ func runCloses(c CloseCase) (*closeStats, error) {
 			}
 		}
 	}
+	if late != nil {
+		late.hold.Store(true)
+		if nc, err := net.DialTimeout("tcp", w.Host, 2*time.Second); err == nil {
+			select {
+			case <-late.got:
+				lateConn = nc
+			case <-time.After(2 * time.Second):
+				nc.Close()
+				late.hold.Store(false)
+			}
+		} else {
+			late.hold.Store(false)
+		}
+	}
 	for _, a := range c.Acts {
 		if a.DelayUs > 0 {
 			time.Sleep(time.Duration(a.DelayUs) * time.Microsecond)
@@ -290,6 +349,21 @@ func runCloses(c CloseCase) (*closeStats, error) {
 	if failure != nil {
 		return st, failure
 	}
+	if lateConn != nil {
+		st.LateAccepted = true
+		stall.take()
+		lateConn.SetReadDeadline(time.Now().Add(2 * time.Second))
+		_, rerr := lateConn.Read(make([]byte, 16))
+		if ne, ok := rerr.(net.Error); rerr == nil || (ok && ne.Timeout()) {
+			if stall.take() > 500*time.Millisecond {
+				st.Inconcl++
+			} else {
+				return st, fmt.Errorf("a connection that the listener accepted while the server was shutting down was neither served nor closed: its peer sees no end of the connection 2 s after Server.Close returned (read: %v)", rerr)
+			}
+		}
+		lateConn.Close()
+		lateConn = nil
+	}
 
 	// ---- judgement ----
 	evs := w.H.Events()
@@ -310,16 +384,16 @@ func runCloses(c CloseCase) (*closeStats, error) {
 			return st, fmt.Errorf("callback %q for session %d was invoked after that session's close notification\nevents: %s", e.Kind, e.Sess, summarizeEvents(evs))
 		}
 	}
-	var late error
+	var lateErr error
 	lastCB.Range(func(k, v any) bool {
 		if cs, ok := closeSeq[k.(int)]; ok && v.(*atomic.Int64).Load() > cs {
-			late = fmt.Errorf("a packet callback (RTP or RTCP) of session %d was invoked after that session's close notification had been delivered", k.(int))
+			lateErr = fmt.Errorf("a packet callback (RTP or RTCP) of session %d was invoked after that session's close notification had been delivered", k.(int))
 			return false
 		}
 		return true
 	})
-	if late != nil {
-		return st, late
+	if lateErr != nil {
+		return st, lateErr
 	}
 	for i, ps := range peers {
 		if n := ps.lateCB.Load(); n > 0 {
